@@ -99,10 +99,25 @@ def eval_case(case, cfg, reencodings, stats):
         keys.update(keys_of(sel, X, y, quant, "float", cfg["names"]["quant_measure"]))
     if qual:
         keys.update(keys_of(sel, X, y, qual, "str", cfg["names"]["qual_measure"]))
-    # target copies must be returned
-    if copy_kind in ("copy", "monotone") and "q_copy" not in base:
+    # target copies must be returned.  Another feature can be the very same copy under another encoding (the generator
+    # duplicates and renames columns): the two tie exactly, are perfectly associated, and the selector returns one of them -
+    # a returned re-encoding of the copy counts as the copy
+    def recoding_of(f, g):
+        a, b = X[f].tolist(), X[g].tolist()
+        if [selgen._missing(v) for v in a] != [selgen._missing(v) for v in b]:
+            return False
+        pairs = {(u, v) for u, v in zip(a, b) if not selgen._missing(u)}
+        if len({u for u, _ in pairs}) == len(pairs) == len({v for _, v in pairs}):
+            if f in qual:
+                return True
+            srt = sorted(pairs)           # quantitative: the bijection must be monotone (same or reversed ranks)
+            vs = [v for _, v in srt]
+            return vs == sorted(vs) or vs == sorted(vs, reverse=True)
+        return False
+    if copy_kind in ("copy", "monotone") and "q_copy" not in base and not any(recoding_of(f, "q_copy") for f in base if f in quant):
         fail("a feature that is a copy of (or strictly monotone in) the target is not returned", returned=base, copy=copy_kind)
-    if copy_kind == "qual_copy" and task == "classification" and "k_copy" not in base:
+    if copy_kind == "qual_copy" and task == "classification" and "k_copy" not in base \
+            and not any(recoding_of(f, "k_copy") for f in base if f in qual):
         # known finding C15-yates-2x2: the 2x2 table of a binary target and its copy gets Yates' correction (V < 1), a
         # feature with more categories does not and can outrank it; the correlation filter then drops the copy
         rivals = [f for f in qual if f != "k_copy" and keys.get(f, float("nan")) > keys.get("k_copy", float("nan"))]
